@@ -271,6 +271,8 @@ impl LangInterpreter for French {
                 } else {
                     ""
                 };
+                // the scratch builder must not carry digits over from an earlier probe
+                b.reset();
                 if previous_text != "numéro"
                     && self.apply(previous_text, &mut b).is_err()
                     && self.apply(next_text, &mut b).is_err()
